@@ -309,6 +309,10 @@ func schedRun(args []string) int {
 	names := []string{"a", "b", "ab", "daily::load", "load", "A"}
 	offsets := []int64{-3 * hour, -2 * hour, -90 * minute, -30 * minute, -10 * minute, 20 * minute, hour, 2 * hour, 5 * hour}
 
+	// known finding `paused-run-once` (C08): a run-once job paused before its fire time cannot be resumed — replayed on the real code
+	if k := schedKnownPausedRunOnce(); k != "" {
+		viol = append(viol, k)
+	}
 	for s := 0; s < *nseq; s++ {
 		thr := thr
 		if r.Intn(6) == 0 { // "never treat a fire time as outdated"
@@ -829,4 +833,31 @@ func b01(b bool) string {
 		return "1"
 	}
 	return "0"
+}
+
+// schedKnownPausedRunOnce: ScheduleJob(RunOnceTrigger 1 h); PauseJob; ResumeJob on a fresh, never started scheduler. ScheduleJob has
+// consumed the trigger's only fire time, so ResumeJob, which asks the trigger "from the moment of resumption", gets ErrTriggerExpired:
+// the job stays paused for ever although it never ran. Returns the KNOWN string if the real code behaves like that, "" if ResumeJob
+// re-activates the job, and an ordinary violation for anything else.
+func schedKnownPausedRunOnce() string {
+	s, err := quartz.NewStdScheduler()
+	if err != nil {
+		return ""
+	}
+	key := quartz.NewJobKey("paused-once")
+	if err := s.ScheduleJob(quartz.NewJobDetail(&tagJob{tag: -2}, key), quartz.NewRunOnceTrigger(time.Hour)); err != nil {
+		return "C08 ScheduleJob of a run-once job failed: " + err.Error()
+	}
+	if err := s.PauseJob(key); err != nil {
+		return "C08 PauseJob of a run-once job that has not fired yet failed: " + err.Error()
+	}
+	err = s.ResumeJob(key)
+	sj, gerr := s.GetScheduledJob(key)
+	switch {
+	case err == nil && gerr == nil && !sj.JobDetail().Options().Suspended && sj.NextRunTime() != math.MaxInt64:
+		return "" // re-activated: the finding is gone
+	case errors.Is(err, quartz.ErrTriggerExpired) && gerr == nil && sj.JobDetail().Options().Suspended && sj.NextRunTime() == math.MaxInt64:
+		return "C08 KNOWN[paused-run-once] ScheduleJob(RunOnceTrigger 1h); PauseJob; ResumeJob -> " + err.Error() + ": the job stays listed as paused and can never be re-activated, although it has not run"
+	}
+	return fmt.Sprintf("C08 ScheduleJob(RunOnceTrigger 1h); PauseJob; ResumeJob returned %v and left the registry in an inconsistent state (get: %v)", err, gerr)
 }
